@@ -11,7 +11,7 @@ import numpy as np
 from . import lib
 from .lib import cbool, cnat, cZ, clist, cshape, copt
 
-HEADER = 'From Coq Require Import List ZArith Bool.\nFrom PM Require Import Base C14Model.\nImport ListNotations.\n'
+HEADER = 'From Coq Require Import List ZArith Bool.\nFrom PM Require Import Base Mask C14Model.\nImport ListNotations.\n'
 
 SHAPES = [(), (1,), (2,), (3,), (0,), (2, 3), (3, 1), (1, 3), (2, 0), (2, 1, 2)]
 BPAIRS = [((), ()), ((), (3,)), ((3,), ()), ((3,), (3,)), ((2, 3), (3,)), ((3, 1), (1, 3)),
